@@ -58,6 +58,9 @@ known("C06", "c06_offset", r"operand:array:autoconvert:.*", "array `a *= b` / `a
 known("C06", "c06_offset", r"log-arith:.*", "subtracting logarithmic quantities yields an undefined unit, e.g. Q(20,'dBm') - Q(10,'dBm') -> delta_decibelmilliwatt")
 known("C06", "c06_offset", r"log-parse:.*", "parse_units('dBm/hertz') yields the undefined unit delta_decibelmilliwatt/hertz (delta substitution applied to logarithmic units)")
 known("C06", "c06_offset", r"qstr:.*", "Quantity('10 degC/meter') and Quantity(10, 'degC/meter') disagree in the default mode")
+known("C06", "c06_logcompound", r"offset:wrong-value:offset->(offset|lin)|offset:wrong-value:lin->offset", "autoconvert mode: converting a compound unit with an offset head ignores the rest of the unit, e.g. Q(5, degC/m).to(degF/km) == Q(5, degC/m).to(degF/m) == 41 (_add_ref_of_log_or_offset_unit returns the bare reference for offset units)")
+known("C06", "c06_logcompound", r"logdimless:wrong-value:log->(log|lin)|logdimless:wrong-value:lin->log", "autoconvert mode: dimensionless-reference log units (dB, Np, octave, decade) inside a compound unit convert as if the rest of the unit were absent, e.g. Q(5, dB/m).to(dB/km) == 5")
+known("C06", "c06_logcompound", r"userlog:wrong-value:log->(log|lin)|userlog:wrong-value:lin->log", "a user-defined log unit whose reference unit is itself compound (W/m**2) keeps only one factor of the reference ((u, e) = [...].pop()), e.g. dBWm2 -> dBmWcm2 gives -35 instead of -5")
 known("C07", "c07_eval", r"tree:.*[23xy)] ?\(.*", "a parenthesised group written directly after an operand binds tighter than any operator: '8/2(2+2)' = 1 but '8/2 (2+2)' = 16; '2(meter)**2' = 4 m**2")
 known("C07", "c07_eval", r"catalogue:.*\+/-.*", "'(a +/- b)' at the end of the input raises IndexError in the uncertainty tokenizer, e.g. parse_expression('meter * (2.0 +/- 0.3)')")
 known("C07", "c07_eval", r"tree-O:.*", "under `python -O` a dangling operator yields a value ('2 -' -> -2): the rejection relies on assert statements")
@@ -79,6 +82,10 @@ known("C10", "c10_defs", r"illformed:(symbol-space|prefix-symbol-space)", "symbo
 known("C10", "c10_defs", r"illformed:(group|system|context)-name-space", "'@group g h' creates group g and silently drops the rest of the header line")
 known("C10", "c10_defs", r"illformed:(expr-empty|prefix-value-empty|offset-empty|double-equals)", "empty right-hand sides are given a meaning: 'ux = ' is a dimensionless unit of scale 1, '; offset:' is offset 1")
 known("C10", "c10_defs", r"numtype:Fraction:scale:.*", "Fraction registry stores float scales for planck_* and franklin (1 ** Fraction(1,2) evaluates to a float)")
+known("C10", "c10_order", r"cache:import-same-main:(float|Fraction):B:.*", "two identical main files in different directories that @import different sub files share one parsed-file cache entry with the first directory's path: the second registry reads the first directory's sub file (UnitRegistry(d2/'main.txt', cache_folder=cf).get_root_units('yard') gives d1's factor)")
+known("C10", "c10_order", r"redef:(ctor-lines|ctor-file|load-lines|load-file|define-each):(factor|chain|dimension):sys-mid:.*", "a @system block evaluates the units it names while the file is being loaded; a later line of the same load that redefines such a unit (on_redefinition='ignore'/'warn') leaves the system rule / memoised root units at the superseded definition, e.g. ['yard = 0.75 meter', '@system imp', ' yard', '@end', 'yard = 0.5 meter'] via load_definitions: get_root_units('yard') 0.75 but to('meter') 0.5")
+known("C10", "c10_order", r"raise-order:(ctor-lines|load-lines):dimension-used-before-its-line", "on_redefinition='raise': '[force] = [mass]*[acceleration]' before '[acceleration] = [length]/[time]**2' raises RedefinitionError although nothing is defined twice (the dimension is auto-created when first mentioned); the other line order loads")
+known("C10", "c10_order", r"order:(load-lines|load-file|define-each):ctx(\+grp\+sys)?:check\+dim", "load_definitions()/define() on a live registry: a @context block memoises get_dimensionality('[force]') while loading and the later '[acceleration] = ...' line does not invalidate it (constructor paths rebuild the cache and are order independent)")
 known("C11", "c11_contexts", r"param-inherit:.*", "ContextChain.defaults does not return the innermost active context's parameters in a three-level nesting that re-enters a context")
 known("C12", "c12_context_stack", r"stale-base-units:.*", "_base_units_cache ignores context redefinitions: get_base_units('mile') inside a context that redefines yard still answers with the outer value, and an answer computed inside leaks out")
 known("C13", "c13_history", r"double-prefix:.*", "doubly prefixed names (kilomillifoot) resolve only after the singly prefixed name was looked up")
